@@ -141,7 +141,7 @@ func init() {
 		Rule:      "one instance = one policy shape (valid, or invalid so that the load fails before the kernel) through LoadFilter, or Supported(); kernel answers, flags, NoNewPrivs, privilege symbolic; one path per control-flow outcome.",
 		Jobs:      loadJobs("C09"),
 		NeedCovers: []string{"cover.tsync_refused", "cover.eacces", "cover.einval", "cover.attached", "cover.invalid", "cover.prctl_failed", "cover.supported", "cover.unsupported"},
-		Bounds:    map[string]interface{}{"calls": "one LoadFilter (or Supported) call per path; histories of loads on other threads are represented by the kernel answer they provoke (positive r1 = refused thread-sync), not replayed", "answers": "all (r1, errno) pairs allowed by the Syscall contract"},
+		Bounds:    map[string]interface{}{"calls": "one LoadFilter (or Supported) call per path, and histories of TWO calls in three (thorough: nine) instances: an earlier SetNoNewPrivs / LoadFilter (own arguments and kernel answers) / Supported in the same process, then the call whose obligations are checked; what OTHER threads did before is represented by the kernel answer it provokes (positive r1 = refused thread-sync), not replayed; goroutines started by the code under test run to completion where they are started (one schedule)", "answers": "all (r1, errno) pairs allowed by the Syscall contract"},
 		Outside:   []string{"whether the kernel honours seccomp(2)", "histories of several LoadFilter calls in one process"},
 		Assumptions: loadStubs, Trusted: []string{"kernel contract stub (harness/root/zz_verif_h_load_linux.go, ~100 lines)", "gosym engine; models replayed natively against seccomp_linux.go with its syscall selectors rewritten to the stub", "z3/cvc5"},
 	})
